@@ -112,6 +112,14 @@ class SQLGenerator:
         """Get the CTE identifier name for a model."""
         return f"{model_name}_cte"
 
+    def _model_from_table(self, table_name: str) -> str:
+        """Model a table qualifier refers to: the model itself or its `<model>_cte` alias."""
+        if table_name in self.graph.models:
+            return table_name
+        if table_name.endswith("_cte"):
+            return table_name[: -len("_cte")]
+        return table_name
+
     def _cte_ref(self, model_name: str, column_name: str) -> str:
         """Build a quoted reference to a CTE column."""
         return f"{self._quote_identifier(self._cte_name(model_name))}.{self._quote_identifier(column_name)}"
@@ -410,7 +418,7 @@ class SQLGenerator:
                 for column in parsed.find_all(exp.Column):
                     if column.table:
                         # Remove _cte suffix if present
-                        model_name = column.table.replace("_cte", "")
+                        model_name = self._model_from_table(column.table)
                         models_with_filters.add(model_name)
             except Exception:
                 logging.debug("Failed to parse filter for model extraction: %s", filter_expr, exc_info=True)
@@ -557,7 +565,7 @@ class SQLGenerator:
             for column in parsed.find_all(exp.Column):
                 if not column.table:
                     continue
-                model_name = column.table.replace("_cte", "")
+                model_name = self._model_from_table(column.table)
                 if model_name in self.graph.models:
                     models.add(model_name)
         except Exception:
@@ -640,7 +648,7 @@ class SQLGenerator:
                     for column in parsed.find_all(exp.Column):
                         if column.table:
                             # Remove _cte suffix if present (shouldn't be, but be defensive)
-                            model_name = column.table.replace("_cte", "")
+                            model_name = self._model_from_table(column.table)
                             add_model(model_name)
                 except Exception:
                     logging.debug("Failed to parse filter for model extraction: %s", filter_expr, exc_info=True)
@@ -699,7 +707,7 @@ class SQLGenerator:
 
                 if table_name:
                     # Remove _cte suffix if present
-                    clean_name = table_name.replace("_cte", "")
+                    clean_name = self._model_from_table(table_name)
                     if clean_name in all_models:
                         referenced_models.add(clean_name)
 
@@ -747,7 +755,7 @@ class SQLGenerator:
                 try:
                     parsed = sqlglot.parse_one(aliased_filter, dialect=self.dialect)
                     for col in parsed.find_all(exp.Column):
-                        if col.table and col.table.replace("_cte", "") == model_name:
+                        if col.table and self._model_from_table(col.table) == model_name:
                             columns_by_model[model_name].add(col.name)
                         elif not col.table:
                             columns_by_model[model_name].add(col.name)
@@ -760,7 +768,7 @@ class SQLGenerator:
                 parsed = sqlglot.parse_one(sql_expr, dialect=self.dialect)
                 for col in parsed.find_all(exp.Column):
                     if col.table:
-                        model_name = col.table.replace("_cte", "")
+                        model_name = self._model_from_table(col.table)
                         if model_name in self.graph.models:
                             if model_name not in columns_by_model:
                                 columns_by_model[model_name] = set()
@@ -897,7 +905,7 @@ class SQLGenerator:
                 try:
                     parsed = sqlglot.parse_one(filter_expr, dialect=self.dialect)
                     for col in parsed.find_all(exp.Column):
-                        if col.table and col.table.replace("_cte", "") == model_name:
+                        if col.table and self._model_from_table(col.table) == model_name:
                             needed.add(col.name)
                 except Exception:
                     logging.debug("Failed to parse filter for column extraction: %s", filter_expr, exc_info=True)
@@ -1058,7 +1066,7 @@ class SQLGenerator:
             try:
                 parsed = sqlglot.parse_one(sql_expr, dialect=self.dialect)
                 for col in parsed.find_all(exp.Column):
-                    if col.table and col.table.replace("_cte", "") != model_name:
+                    if col.table and self._model_from_table(col.table) != model_name:
                         continue
                     extra_metric_sql_columns.add(col.name)
             except Exception:
@@ -1225,7 +1233,7 @@ class SQLGenerator:
                     # Remove table qualifiers (model_name_cte. or model_name.)
                     for col in parsed.find_all(exp.Column):
                         if col.table:
-                            clean_table = col.table.replace("_cte", "")
+                            clean_table = self._model_from_table(col.table)
                             if clean_table == model_name:
                                 col.set("table", None)
                     processed_filter = parsed.sql(dialect=self.dialect)
@@ -1981,7 +1989,7 @@ class SQLGenerator:
             for col in parsed.find_all(exp.Column):
                 if not col.table:
                     continue
-                model_name = col.table.replace("_cte", "")
+                model_name = self._model_from_table(col.table)
                 if model_name in self.graph.models:
                     cte_name = self._cte_name(model_name)
                     col.set("table", exp.to_identifier(cte_name, quoted=not self._is_simple_identifier(cte_name)))
